@@ -1,6 +1,6 @@
 (* C05 correspondence: how one observed implementation result is compared with the model.
    Used by the generated run/C05/cases_*.v files.  Not part of any theorem. *)
-From Hy Require Import lib.Harness model.C05_Frag model.C05_Send.
+From Hy Require Import lib.Harness model.C05_Frag model.C05_Send model.C05_SendIds.
 From Coq Require Import ZArith.
 Local Open Scope N_scope.
 
@@ -26,6 +26,9 @@ Record sobs := mkSO { so_calls : list (list Z); so_ret : Z; so_retL : Z; so_emit
 
 Inductive case :=
 | CSend (sid : N) (buflen : nat) (steps : list sspec) (obs : list sobs)
+(* long operation: summary of the ids of one history of n fragmented sends (every message split) - the
+   observation that discharges the id hypothesis of the send-path theorems, up to chance (see ids_ok) *)
+| CSendIds (n w thr zeros : N) (lags : list N) (period : N) (sample : list N) (rep : option (N * N)) (ok : bool)
 | CFrag (m : mspec) (max : Z) (exp : option (list (list N)))
 | CSeq (ms : list (mspec * Z)) (order : list (nat * nat)) (exp : option (list (list N)))
 | CWire (m : mspec) (buf : nat) (n : Z) (hsz : nat) (dg : option N) (p : pres)
@@ -142,8 +145,43 @@ Fixpoint send_check (sid : N) (buflen : nat) (d : dstate) (steps : list sspec) (
   | _, _ => false
   end.
 
+(* ---- ids of a long history ----
+   lags = [X_1; ...; X_(w-1)], X_d = number of sends carrying the id of the send d earlier; period = the cycle length
+   of the id sequence when it is cyclic, else 0.  The ids discharge the hypothesis "fresh within the horizon w"
+   (win_distinct w, theorem C05_send_hist_delivers_window) exactly when every X_d is 0; random ids cannot promise
+   that, so the accepted observation is: never 0; every X_d below thr, where thr makes the chance of an honest
+   uniform generator reaching it negligible (fa_ok: (w-1) * (n/65535)^thr / thr! < 5e-10, X_d being
+   Binomial(n-d, 1/65535)); and no repeat at all within the horizon when the sequence is cyclic. *)
+Definition sumN (l : list N) : N := fold_right N.add 0 l.
+Definition maxN (l : list N) : N := fold_right N.max 0 l.
+Fixpoint factN (k : nat) : N := match k with O => 1 | S k' => N.of_nat k * factN k' end.
+
+Definition fa_ok (n w thr : N) : bool :=
+  (w - 1) * n ^ thr * 2000000000 <? 65535 ^ thr * factN (N.to_nat thr).
+
+Definition ids_ok (thr zeros : N) (lags : list N) (period : N) : bool :=
+  (zeros =? 0) && (maxN lags <? thr) && ((period =? 0) || (sumN lags =? 0)).
+
+Definition ids_check (n w thr zeros : N) (lags : list N) (period : N) (sample : list N) (rep : option (N * N))
+  (ok : bool) : bool :=
+  (65536 <? n) && (2 <=? w) && (thr <=? 64) && fa_ok n w thr &&
+  Nat.eqb (length lags) (N.to_nat w - 1) &&
+  Bool.eqb (ids_ok thr zeros lags period) ok &&
+  match rep with
+  | None => (sumN lags =? 0) && win_distinct (N.to_nat w) sample
+  | Some (i, j) =>
+      (* the harness shows one repeat inside the horizon, in the sample of the sequence it hands over *)
+      (i <? j) && (j - i <? w) && (0 <? sumN lags) &&
+      match nth_error sample (N.to_nat i), nth_error sample (N.to_nat j) with
+      | Some x, Some y => (x =? y) && negb (win_distinct (N.to_nat w) sample) &&
+                          (match nth_error lags (N.to_nat (j - i) - 1) with Some c => 0 <? c | None => false end)
+      | _, _ => false
+      end
+  end.
+
 Definition check (c : case) : bool :=
   match c with
+  | CSendIds n w thr zeros lags period sample rep ok => ids_check n w thr zeros lags period sample rep ok
   | CSend sid buflen steps obs => send_check sid buflen d_init steps obs
   | CFrag m max exp =>
       match frag (build m) max with
